@@ -117,6 +117,7 @@ class WorkCount:
         self.evals = []            # the largest constant foldings seen: dicts
         self.eval_pending = None   # set while a strict_eval call is running (witness if the child dies inside)
         self.t0 = time.time()
+        self.cpu0 = time.process_time()
         self.dump_path = None
         self.limits = None
         self.aborted = None
@@ -140,7 +141,8 @@ class WorkCount:
     def dump(self, final=False, note=None):
         if not self.dump_path:
             return
-        rec = {"t": round(time.time() - self.t0, 3), "c": self.snapshot()}
+        rec = {"t": round(time.time() - self.t0, 3), "cpu": round(time.process_time() - self.cpu0, 3),
+               "c": self.snapshot()}
         if self.eval_pending is not None:
             rec["in_strict_eval"] = self.eval_pending
         if final:
